@@ -330,6 +330,12 @@ func (d *V1) Apply(op model.Op) (res model.Result) {
 		return model.Result{Desc: v1Desc(out.Table)}
 	case "AddIndex":
 		ix := op.IndexSchema
+		if ix.ViaHelper {
+			if err := v1client.AddIndex(c, op.Table, ix.Name, ix.Hash, ix.Range); err != nil {
+				return fail(err)
+			}
+			return model.Result{}
+		}
 		act := &dynamodb.CreateGlobalSecondaryIndexAction{IndexName: aws.String(ix.Name), KeySchema: v1KeySchema(ix.Hash, ix.Range),
 			Projection: &dynamodb.Projection{ProjectionType: aws.String("ALL")}}
 		if !ix.NoThroughput {
